@@ -7,7 +7,10 @@ Inductive case :=
 | CTrap (univ : list (N * disp)) (hist : list step_obs)
 (* a script of instrumented commands with its table of trap actions, the trace
    the built-ins recorded, and whether the main shell was killed *)
-| CScript (tbl : table) (main : list cmd) (trace : list event) (dead : bool).
+| CScript (tbl : table) (main : list cmd) (trace : list event) (dead : bool)
+(* the implementation panicked (or the shell hung) on the input described in
+   the case's JSON *)
+| CPanic (stream : N).
 
 Fixpoint olookup (l : list (N * sobs)) (c : N) : option sobs :=
   match l with
@@ -26,6 +29,8 @@ Definition in_domain (keys : list N) (prev : list (N * sobs)) (ops : list op)
   && forallb (fun o => op_ok o &&
                 match o with
                 | ODeliver c =>
+                    (* KILL and STOP always act on the process *)
+                    negb (N.eqb c SIGKILL) && negb (N.eqb c SIGSTOP) &&
                     match olookup prev c with
                     | Some p => negb (disp_eqb (ob_disp p) Default) || N.eqb c SIGCHLD
                     | None => false
@@ -60,7 +65,7 @@ Definition run_trap_case (univ : list (N * disp)) (hist : list step_obs) : verdi
   if negb (univ_ok univ && domain_hist (map fst univ) (obs_inits univ) hist) then 99%N
   else
     (* oracle first: only the implementation's outputs are used *)
-    match oracle_hist (spec_inits univ) (obs_inits univ) hist with
+    match oracle_hist true (spec_inits univ) (obs_inits univ) hist with
     | Some k => (2 + k)%N
     | None => if model_hist (ginit univ) hist then 0%N else 1%N
     end.
@@ -74,7 +79,7 @@ Definition run_script_case (tbl : table) (main : list cmd) (trace : list event) 
   if negb (script_ok tbl main) then 99%N
   else
     (* oracle first: the monitor sees only the recorded trace *)
-    match monitor tbl trace dead with
+    match monitor true tbl trace dead with
     | Some k => (20 + k)%N
     | None =>
         match run_script tbl BFUEL main with
@@ -88,6 +93,7 @@ Definition run_case (c : case) : verdict :=
   match c with
   | CTrap univ hist => run_trap_case univ hist
   | CScript tbl main trace dead => run_script_case tbl main trace dead
+  | CPanic _ => 12%N
   end.
 
 Definition run_cases := run_cases_with run_case.
